@@ -113,6 +113,7 @@ func TestVerif_C16(t *testing.T) {
 		vfC16OldConnRateLimit(rec, via)
 		vfC16CallerMemory(rec, via)
 		vfC16RefusedThenUpdate(rec, via)
+		vfC16EnableByRoundTrip(rec, via)
 	}
 	st := evid.Pick(6, 300)
 	for s := 0; s < st && rec.Violations() < 25; s++ {
@@ -830,4 +831,68 @@ func vfC16RefusedThenUpdate(rec *evid.Rec, via string) {
 		}
 		rec.Distinct(fmt.Sprintf("refused-then-update|%s|%s", via, rf.name))
 	}
+}
+
+// vfC16EnableByRoundTrip: rate limiting is switched on at runtime the documented way - take what
+// the server reports, set EnableRateLimiting, hand it back - without spelling out a RateLimitConfig
+// (the server was built with limiting off and reports its defaults, or nothing). Once the update has
+// returned, requests ARE limited: of a run of MNT calls (default budget: 2, refilled at 10 a minute)
+// from one address on a connection that was open before, only what burst + rate x elapsed allows is
+// served - with a wide margin for a slow machine.
+func vfC16EnableByRoundTrip(rec *evid.Rec, via string) {
+	fs := refs.New()
+	srv, err := vfNewSrv(fs, ExportOptions{AttrCacheTimeout: 1})
+	if err != nil {
+		rec.Infra(err.Error())
+		return
+	}
+	defer srv.Close()
+	old := srv.pipe("127.0.0.1", 811)
+	defer old.close()
+	if _, _, err := old.call(vfProgNFS, 3, 0, vfRootCred(), nil); err != nil {
+		rec.Inconclusive(1)
+		return
+	}
+	if via == "UpdatePolicyOptions" {
+		p := *srv.nfs.policy.Load()
+		p.EnableRateLimiting = true
+		err = srv.nfs.UpdatePolicyOptions(p)
+	} else {
+		eo := srv.nfs.GetExportOptions()
+		eo.EnableRateLimiting = true
+		err = srv.nfs.UpdateExportOptions(eo)
+	}
+	if err != nil {
+		rec.Distinct("enable-by-round-trip|" + via + "|refused")
+		return // refusing the update is allowed; accepting it and not limiting is not
+	}
+	if !srv.nfs.GetExportOptions().EnableRateLimiting {
+		rec.Violate("C16/rate-limiting-enabled-by-round-trip-not-reported/via="+via, "the update returned nil, GetExportOptions().EnableRateLimiting is false", nil)
+		return
+	}
+	t0 := time.Now()
+	served := 0
+	const calls = 14
+	for i := 0; i < calls; i++ {
+		_, raw, err := old.call(vfProgMount, 3, 1, vfRootCred(), (&xdrw.W{}).Str("/").B)
+		if err != nil {
+			rec.Inconclusive(1)
+			return
+		}
+		rep, derr := rfc.DecodeReply(raw)
+		if derr != nil || rep.Denied || rep.AcceptStat != 0 {
+			continue
+		}
+		if m, derr := rfc.DecodeMount(1, rep.Body); derr == nil && m.Status == 0 {
+			served++
+		}
+	}
+	el := time.Since(t0)
+	rec.Eval(calls)
+	// default mount budget: burst 2 (10 per minute); allowance with a 3x margin on the rate
+	allowed := 2 + int(el/(2*time.Second)) + 1
+	if served > allowed {
+		rec.Violate("C16/rate-limiting-enabled-at-runtime-without-explicit-config-not-in-force/via="+via, fmt.Sprintf("rate limiting was switched on by %s (EnableRateLimiting set on what GetExportOptions/the policy reports; the update returned nil and limiting is reported as enabled): %d of %d MNT calls from one address were served in %v, the default mount budget is 2 + 10 per minute", via, served, calls, el), nil)
+	}
+	rec.Distinct(fmt.Sprintf("enable-by-round-trip|%s|served<=allowed=%v", via, served <= allowed))
 }
